@@ -1,13 +1,18 @@
 import SerfModel.Prelude.Basic
 /-!
 Control skeleton of the network-facing handlers (serf/delegate.go NotifyMsg, MergeRemoteState;
-serf/serf.go handleUserEvent, handleQuery; serf/query.go shouldProcessQuery; serf/internal_query.go
-stream/handleQuery and the key handlers) over raw bytes and an ABSTRACT decoder.
+serf/serf.go handleUserEvent, handleQuery, handleQueryResponse; serf/query.go shouldProcessQuery,
+QueryResponse.sendAck/sendResponse; serf/internal_query.go stream/handleQuery and the key handlers)
+over raw bytes and an ABSTRACT decoder.
 
-Every place where the real code indexes, slices or takes a modulo is a *checked* operation here
-with an explicit `.panic site` outcome (the site names are those of `SerfModel.Gen.PanicSites`),
-guarded exactly as the source guards it.  The decoder is a parameter: any total function (go-msgpack
-turns its internal panics into errors; that is the assumed law).  Bytes are `Nat`s.
+Every place where the real code indexes, slices, takes a modulo, writes to a map that may be nil or
+sends on a channel that may be closed is a *checked* operation here with an explicit `.panic site`
+outcome, guarded exactly as the source guards it.  The site names are those of
+`SerfModel.Gen.PanicSites` (regenerated from the source); `coveredSites` lists the ones this
+skeleton embodies and `SerfProofs.C09.C09_skeleton_covers_generated_sites` checks that list against
+the generated inventory of the modelled functions.  The decoder is a parameter: any total function
+to `Option` (go-msgpack turns its internal panics into errors; that is the assumed law).  Bytes are
+`Nat`s; Lamport times are `Nat`s below 2^64 with the wrap-around of `uint64` made explicit.
 -/
 namespace SerfModel.Handlers
 
@@ -21,6 +26,11 @@ inductive Outcome where
 inductive Res (α : Type) where
   | val : α → Res α
   | panic : String → Res α
+
+def twoPow64 : Nat := 18446744073709551616
+
+/-- serf/lamport.go Witness on `uint64`: `if v < cur { return }; cur = v + 1` (the addition wraps). -/
+def witness (cur v : Nat) : Nat := if v < cur then cur else (v + 1) % twoPow64
 
 structure Cfg where
   eventBuffer : Nat
@@ -36,6 +46,11 @@ structure Query where
   ack : Bool
   noBroadcast : Bool
 
+structure Response where
+  ltime : Nat
+  id : Nat
+  ack : Bool
+
 structure PushPull where
   leftMembers : List (List Nat)
   /-- `none` = a nil slot in the decoded `Events` slice; `some (ltime, n)` = an entry with n events -/
@@ -47,7 +62,8 @@ structure Dec where
   join : List Nat → Option Nat
   userEvent : List Nat → Option Nat
   query : List Nat → Option Query
-  queryResponse : List Nat → Option Nat
+  queryResponse : List Nat → Option Response
+  /-- relay header; the result is `raw`, the bytes behind the header (forwarded untouched) -/
   relayHeader : List Nat → Option (List Nat)
   pushPull : List Nat → Option PushPull
   /-- node filter: decoded, and whether our name is listed -/
@@ -61,6 +77,19 @@ def rejectAll : Dec :=
     queryResponse := fun _ => none, relayHeader := fun _ => none, pushPull := fun _ => none,
     filterNode := fun _ => none, filterTag := fun _ => none, keyRequest := fun _ => none }
 
+/-- a query this node has issued and still tracks (serf/query.go QueryResponse) -/
+structure OpenQuery where
+  ltime : Nat
+  id : Nat
+  /-- `ackCh != nil` / `acks != nil` (both made by newQueryResponse iff the query requested acks) -/
+  ackCh : Bool
+  acksMap : Bool
+  /-- `responses != nil` -/
+  responsesMap : Bool := true
+  /-- the `closed` flag, and whether the channels have actually been closed -/
+  closed : Bool := false
+  chClosed : Bool := false
+
 structure State where
   /-- one slot per buffer entry: the Lamport time stored there (`none` = nil pointer) -/
   eventBuf : List (Option Nat)
@@ -69,21 +98,34 @@ structure State where
   queryMin : Nat := 0
   eventClock : Nat := 0
   queryClock : Nat := 0
+  openQueries : List OpenQuery := []
+
+/-- scheduling facts the handler cannot control: is there room in the reply channel, has the query's deadline passed -/
+structure Sched where
+  space : Bool := true
+  deadlinePassed : Bool := false
 
 def defaultCfg : Cfg := { eventBuffer := 4, queryBuffer := 4 }
 def initState : State := { eventBuf := List.replicate 4 none, queryBuf := List.replicate 4 none }
 
-/-- configuration precondition + buffer shape: Create makes the buffers with the configured sizes,
-which must be positive (`LTime % len(buffer)` divides by the size). -/
+/-- invariants of an open query: established by newQueryResponse / Close (checked against the source by the
+extractor: `[inv]` hypotheses of the sendAck/sendResponse sites) -/
+def OpenQuery.WF (q : OpenQuery) : Prop :=
+  (q.ackCh = true → q.acksMap = true) ∧ q.responsesMap = true ∧ (q.chClosed = true → q.closed = true)
+
+/-- configuration precondition + shape of the state: Create makes the buffers with the configured sizes,
+which must be positive (`LTime % len(buffer)`); open queries satisfy their invariants. -/
 def WF (cfg : Cfg) (st : State) : Prop :=
-  0 < cfg.eventBuffer ∧ 0 < cfg.queryBuffer ∧ st.eventBuf.length = cfg.eventBuffer ∧ st.queryBuf.length = cfg.queryBuffer
+  0 < cfg.eventBuffer ∧ 0 < cfg.queryBuffer ∧ st.eventBuf.length = cfg.eventBuffer ∧ st.queryBuf.length = cfg.queryBuffer ∧
+  ∀ q ∈ st.openQueries, q.WF
 
 /-- `x[1:]`, checked -/
 def slice1 (site : String) (x : List Nat) : Res (List Nat) :=
   if 1 ≤ x.length then .val (x.drop 1) else .panic site
 
-/-- the de-duplication buffers: `idx := ltime % len(buf); seen := buf[idx]` (handleUserEvent / handleQuery) -/
-def bufferStep (siteDiv siteIdx : String) (buf : List (Option Nat)) (minT clock ltime : Nat) : Res (List (Option Nat) × Bool) :=
+/-- the de-duplication buffers: `idx := ltime % len(buf); seen := buf[idx]; …; buf[idx] = seen`
+(handleUserEvent / handleQuery; `clock` is the clock after witnessing the message) -/
+def bufferStep (siteDiv siteIdx siteIdx2 : String) (buf : List (Option Nat)) (minT clock ltime : Nat) : Res (List (Option Nat) × Bool) :=
   if ltime < minT then .val (buf, false)
   else if clock > buf.length ∧ ltime < clock - buf.length then .val (buf, false)
   else if buf.length = 0 then .panic siteDiv
@@ -91,7 +133,9 @@ def bufferStep (siteDiv siteIdx : String) (buf : List (Option Nat)) (minT clock 
     let idx := ltime % buf.length
     match buf[idx]? with
     | none => .panic siteIdx
-    | some _ => .val (buf.set idx (some ltime), true)
+    | some (some t) => if t = ltime then .val (buf, true)   -- same time: entry kept
+                       else if idx < buf.length then .val (buf.set idx (some ltime), true) else .panic siteIdx2
+    | some none => if idx < buf.length then .val (buf.set idx (some ltime), true) else .panic siteIdx2
 
 /-- serf/query.go shouldProcessQuery -/
 def shouldProcess (d : Dec) : List (List Nat) → Res Bool
@@ -113,7 +157,11 @@ def shouldProcess (d : Dec) : List (List Nat) → Res Bool
           | .val body => match d.filterTag body with
             | some true => shouldProcess d rest
             | _ => .val false
-        else .val false
+        else
+          -- default: the warning prints filter[0] once more
+          match filter[0]? with
+          | none => .panic "site_Serf_shouldProcessQuery_index_filter_0_2"
+          | some _ => .val false
 
 def internalPrefix : List Nat := "_serf_".toList.map (·.toNat)
 
@@ -141,12 +189,13 @@ def internalQuery (d : Dec) (q : Query) : Outcome :=
 
 /-- serf/serf.go handleQuery followed by the internal-query stage -/
 def handleQuery (d : Dec) (st : State) (q : Query) : State × Outcome :=
+  let clock := witness st.queryClock q.ltime
   match bufferStep "site_Serf_handleQuery_div_LamportTime_len_s_queryBuffer" "site_Serf_handleQuery_index_s_queryBuffer_idx"
-      st.queryBuf st.queryMin (max st.queryClock (q.ltime + 1)) q.ltime with
+      "site_Serf_handleQuery_index_s_queryBuffer_idx_2" st.queryBuf st.queryMin clock q.ltime with
   | .panic s => (st, .panic s)
-  | .val (_, false) => ({ st with queryClock := max st.queryClock (q.ltime + 1) }, .ok false)
+  | .val (_, false) => ({ st with queryClock := clock }, .ok false)
   | .val (buf, true) =>
-    let st' := { st with queryBuf := buf, queryClock := max st.queryClock (q.ltime + 1) }
+    let st' := { st with queryBuf := buf, queryClock := clock }
     match shouldProcess d q.filters with
     | .panic s => (st', .panic s)
     | .val false => (st', .ok (!q.noBroadcast))
@@ -157,33 +206,70 @@ def handleQuery (d : Dec) (st : State) (q : Query) : State × Outcome :=
 
 /-- serf/serf.go handleUserEvent -/
 def handleUserEvent (st : State) (ltime : Nat) : State × Outcome :=
+  let clock := witness st.eventClock ltime
   match bufferStep "site_Serf_handleUserEvent_div_LamportTime_len_s_eventBuffer" "site_Serf_handleUserEvent_index_s_eventBuffer_idx"
-      st.eventBuf st.eventMin (max st.eventClock (ltime + 1)) ltime with
+      "site_Serf_handleUserEvent_index_s_eventBuffer_idx_2" st.eventBuf st.eventMin clock ltime with
   | .panic s => (st, .panic s)
-  | .val (buf, b) => ({ st with eventBuf := buf, eventClock := max st.eventClock (ltime + 1) }, .ok b)
+  | .val (buf, b) => ({ st with eventBuf := buf, eventClock := clock }, .ok b)
+
+/-- serf/query.go sendAck: under closeLock; `if r.closed return`; `select { case r.ackCh <- from: r.acks[from] = …; default: error }`.
+A send on a nil channel is never selected; a send on a closed channel is selected and panics. -/
+def sendAck (q : OpenQuery) (sc : Sched) : Outcome :=
+  if q.closed then .ignored "query closed"
+  else if q.ackCh && (sc.space || q.chClosed) then
+    if q.chClosed then .panic "site_QueryResponse_sendAck_send_r_ackCh"
+    else if q.acksMap then .ok false else .panic "site_QueryResponse_sendAck_mapwrite_r_acks"
+  else .ignored "dropped"
+
+/-- serf/query.go sendResponse -/
+def sendResponse (q : OpenQuery) (sc : Sched) : Outcome :=
+  if q.closed then .ignored "query closed"
+  else if sc.space || q.chClosed then
+    if q.chClosed then .panic "site_QueryResponse_sendResponse_send_r_respCh"
+    else if q.responsesMap then .ok false else .panic "site_QueryResponse_sendResponse_mapwrite_r_responses"
+  else .ignored "dropped"
+
+/-- serf/serf.go handleQueryResponse -/
+def handleQueryResponse (st : State) (r : Response) (sc : Sched) : Outcome :=
+  match st.openQueries.find? (fun q => q.ltime == r.ltime) with
+  | none => .ignored "reply for non-running query"
+  | some q =>
+    if q.id ≠ r.id then .ignored "id mismatch"
+    else if q.closed || sc.deadlinePassed then .ignored "finished"
+    else if r.ack then sendAck q sc else sendResponse q sc
 
 /-- serf/delegate.go NotifyMsg -/
-def notifyMsg (d : Dec) (st : State) (buf : List Nat) : State × Outcome :=
+def notifyMsg (d : Dec) (st : State) (buf : List Nat) (sc : Sched) : State × Outcome :=
   if buf.length = 0 then (st, .ignored "empty")
   else match buf[0]? with
     | none => (st, .panic "site_delegate_NotifyMsg_index_buf_0")
     | some t =>
-      match slice1 "site_delegate_NotifyMsg_slice_buf_1" buf with
-      | .panic s => (st, .panic s)
-      | .val body =>
-        if t = 0 then match d.leave body with
+      if t = 0 then match slice1 "site_delegate_NotifyMsg_slice_buf_1" buf with
+        | .panic s => (st, .panic s)
+        | .val body => match d.leave body with
           | none => (st, .ignored "leave does not decode") | some _ => (st, .ok true)
-        else if t = 1 then match d.join body with
+      else if t = 1 then match slice1 "site_delegate_NotifyMsg_slice_buf_1_2" buf with
+        | .panic s => (st, .panic s)
+        | .val body => match d.join body with
           | none => (st, .ignored "join does not decode") | some _ => (st, .ok true)
-        else if t = 3 then match d.userEvent body with
+      else if t = 3 then match slice1 "site_delegate_NotifyMsg_slice_buf_1_3" buf with
+        | .panic s => (st, .panic s)
+        | .val body => match d.userEvent body with
           | none => (st, .ignored "user event does not decode") | some lt => handleUserEvent st lt
-        else if t = 4 then match d.query body with
+      else if t = 4 then match slice1 "site_delegate_NotifyMsg_slice_buf_1_4" buf with
+        | .panic s => (st, .panic s)
+        | .val body => match d.query body with
           | none => (st, .ignored "query does not decode") | some q => handleQuery d st q
-        else if t = 5 then match d.queryResponse body with
-          | none => (st, .ignored "response does not decode") | some _ => (st, .ok false)
-        else if t = 9 then match d.relayHeader body with
-          | none => (st, .ignored "relay header does not decode") | some _ => (st, .ok false)  -- forwarded, not processed here
-        else (st, .ignored "unknown type")
+      else if t = 5 then match slice1 "site_delegate_NotifyMsg_slice_buf_1_5" buf with
+        | .panic s => (st, .panic s)
+        | .val body => match d.queryResponse body with
+          | none => (st, .ignored "response does not decode") | some r => (st, handleQueryResponse st r sc)
+      else if t = 9 then match slice1 "site_delegate_NotifyMsg_slice_buf_1_6" buf with
+        | .panic s => (st, .panic s)
+        | .val body => match d.relayHeader body with
+          | none => (st, .ignored "relay header does not decode")
+          | some _raw => (st, .ok false)  -- raw is forwarded as it is: never inspected, may be empty
+      else (st, .ignored "unknown type")
 
 /-- the event loop of MergeRemoteState: nil slots are skipped (`if events == nil { continue }`) -/
 def mergeEvents (st : State) : List (Option (Nat × Nat)) → State × Outcome
@@ -200,7 +286,11 @@ def mergeRemoteState (d : Dec) (st : State) (buf : List Nat) : State × Outcome 
   else match buf[0]? with
     | none => (st, .panic "site_delegate_MergeRemoteState_index_buf_0")
     | some t =>
-      if t ≠ 2 then (st, .ignored "bad type prefix")
+      if t ≠ 2 then
+        -- the error message prints buf[0] once more
+        match buf[0]? with
+        | none => (st, .panic "site_delegate_MergeRemoteState_index_buf_0_2")
+        | some _ => (st, .ignored "bad type prefix")
       else match slice1 "site_delegate_MergeRemoteState_slice_buf_1" buf with
         | .panic s => (st, .panic s)
         | .val body => match d.pushPull body with
@@ -208,11 +298,11 @@ def mergeRemoteState (d : Dec) (st : State) (buf : List Nat) : State × Outcome 
           | some pp => mergeEvents st pp.events
 
 inductive Input where
-  | msg (buf : List Nat)
+  | msg (buf : List Nat) (sc : Sched := {})
   | merge (buf : List Nat)
 
 def handle (_cfg : Cfg) (d : Dec) (st : State) : Input → State × Outcome
-  | .msg b => notifyMsg d st b
+  | .msg b sc => notifyMsg d st b sc
   | .merge b => mergeRemoteState d st b
 
 /-- a whole history of inputs; stops at the first panic -/
@@ -222,5 +312,38 @@ def run (cfg : Cfg) (d : Dec) : State → List Input → State × Outcome
     match handle cfg d st i with
     | (st', .panic s) => (st', .panic s)
     | (st', _) => run cfg d st' rest
+
+/-- the functions of the source this skeleton follows (names as in `Gen.PanicSites.sitesByFunction`) -/
+def modelledFunctions : List String :=
+  ["delegate_NotifyMsg", "delegate_MergeRemoteState", "Serf_handleUserEvent", "Serf_handleQuery", "Serf_shouldProcessQuery",
+   "serfQueries_handleQuery", "serfQueries_handleInstallKey", "serfQueries_handleUseKey", "serfQueries_handleRemoveKey",
+   "QueryResponse_sendAck", "QueryResponse_sendResponse"]
+
+/-- the kinds of site the skeleton represents as checked operations -/
+def modelledKinds : List String := ["index", "slice", "div", "mapwrite", "send"]
+
+/-- every `.panic` site name that occurs in the skeleton -/
+def coveredSites : List String :=
+  ["site_delegate_NotifyMsg_index_buf_0", "site_delegate_NotifyMsg_slice_buf_1", "site_delegate_NotifyMsg_slice_buf_1_2",
+   "site_delegate_NotifyMsg_slice_buf_1_3", "site_delegate_NotifyMsg_slice_buf_1_4", "site_delegate_NotifyMsg_slice_buf_1_5",
+   "site_delegate_NotifyMsg_slice_buf_1_6",
+   "site_delegate_MergeRemoteState_index_buf_0", "site_delegate_MergeRemoteState_index_buf_0_2", "site_delegate_MergeRemoteState_slice_buf_1",
+   "site_Serf_handleUserEvent_div_LamportTime_len_s_eventBuffer", "site_Serf_handleUserEvent_index_s_eventBuffer_idx",
+   "site_Serf_handleUserEvent_index_s_eventBuffer_idx_2",
+   "site_Serf_handleQuery_div_LamportTime_len_s_queryBuffer", "site_Serf_handleQuery_index_s_queryBuffer_idx",
+   "site_Serf_handleQuery_index_s_queryBuffer_idx_2",
+   "site_Serf_shouldProcessQuery_index_filter_0", "site_Serf_shouldProcessQuery_slice_filter_1",
+   "site_Serf_shouldProcessQuery_slice_filter_1_2", "site_Serf_shouldProcessQuery_index_filter_0_2",
+   "site_serfQueries_handleQuery_slice_q_Name_len_InternalQueryPrefix",
+   "site_serfQueries_handleInstallKey_slice_q_Payload_1", "site_serfQueries_handleUseKey_slice_q_Payload_1",
+   "site_serfQueries_handleRemoveKey_slice_q_Payload_1",
+   "site_QueryResponse_sendAck_send_r_ackCh", "site_QueryResponse_sendAck_mapwrite_r_acks",
+   "site_QueryResponse_sendResponse_send_r_respCh", "site_QueryResponse_sendResponse_mapwrite_r_responses"]
+
+/-- sites of the modelled functions that are trivially safe in the source and have no checked counterpart here
+(a map made two lines earlier; sends on channels the library never closes) -/
+def triviallySafe : List String :=
+  ["site_delegate_MergeRemoteState_mapwrite_leftMap", "site_Serf_handleUserEvent_send_s_config_EventCh",
+   "site_Serf_handleQuery_send_s_config_EventCh"]
 
 end SerfModel.Handlers
